@@ -62,3 +62,48 @@ void bad_alias_rw__comp(fp2_t c, const fp2_t a, const fp2_t b) {
 	fp_mul(c[0], a[0], b[0]);
 	fp_mul(c[1], a[0], b[1]);
 }
+
+/* OUT-FULL: a fast path for base-field elements stores c[0] and returns; c[1], c[2] keep what the caller's object held */
+void ok_full__inv(fp6_t c, const fp6_t a) {
+	fp2_t t;
+	fp2_null(t);
+	fp2_new(t);
+	fp2_sqr(t, a[0]);
+	fp2_inv(t, t);
+	fp2_mul(c[0], a[0], t);
+	fp2_mul(c[1], a[1], t);
+	fp2_mul(c[2], a[2], t);
+	fp2_free(t);
+}
+
+void bad_out_full__fast_path(fp6_t c, const fp6_t a) {
+	fp2_t t;
+	if (fp2_is_zero(a[1]) && fp2_is_zero(a[2])) {
+		fp2_inv(c[0], a[0]);
+		return;
+	}
+	fp2_null(t);
+	fp2_new(t);
+	fp2_sqr(t, a[0]);
+	fp2_inv(t, t);
+	fp2_mul(c[0], a[0], t);
+	fp2_mul(c[1], a[1], t);
+	fp2_mul(c[2], a[2], t);
+	fp2_free(t);
+}
+
+/* a counted loop of constant trip count writes its components on every path */
+void ok_full__loop(fp6_t c, const fp6_t a, const fp6_t b) {
+	for (int i = 0; i < 3; i++) {
+		fp2_add(c[i], a[i], b[i]);
+	}
+}
+
+void ok_full__loop2(fp12_t c, const fp12_t a, const fp12_t b) {
+	for (int i = 0; i < 3; i++) {
+		fp2_add(c[1][i], a[1][i], b[1][i]);
+	}
+	fp2_add(c[0][0], a[0][0], b[0][0]);
+	fp2_add(c[0][1], a[0][1], b[0][1]);
+	fp2_add(c[0][2], a[0][2], b[0][2]);
+}
